@@ -25,6 +25,7 @@ type Case struct {
 	WantBuffers bool `json:"want_buffers,omitempty"` // every live device buffer
 	WantPCs     bool `json:"want_pcs,omitempty"`     // per-wavefront executed PCs
 	SkipVerify  bool `json:"skip_verify,omitempty"`
+	IsRef       bool `json:"is_ref,omitempty"` // a reference run other cases are compared with: scheduled first
 }
 
 func (c Case) paramString() string {
